@@ -229,39 +229,41 @@ class Gen:
             level(L)
 
     # ---------------------------------------------------------- encode
-    def set_member(self, m, owner, ind, otag):
+    def set_member(self, m, owner, ind, otag, cur=False):
         """code that reads a payload from `tk` and writes member m of view `owner` (whose tag is otag)"""
         pad = "    " * ind
         mtag = "%s::%s" % (otag, m.name)
+        CA = ", c" if cur else ""     # cursor argument of a setter
+        CG = "c" if cur else ""       # cursor argument of a getter
         if m.kind == "scalar":
             T = self.fresh("T")
             self.w("%s{ typedef decltype(%s.%s()) %s; %s val_(rt::from_bits<%s>(tk.u64()));" % (pad, owner, m.name, T, T, CPP_PRIM[m.prim]))
-            self.w("%s  if(g_bytag) sbepp::set_by_tag<%s>(%s, val_); else %s.%s(val_); }" % (pad, mtag, owner, owner, m.name))
+            self.w("%s  if(g_bytag) sbepp::set_by_tag<%s>(%s, val_%s); else %s.%s(val_%s); }" % (pad, mtag, owner, CA, owner, m.name, CA))
         elif m.kind == "enum":
             T = self.fresh("T")
             self.w("%s{ typedef decltype(%s.%s()) %s; %s val_ = rt::enum_from_bits<%s>(tk.u64());" % (pad, owner, m.name, T, T, T))
-            self.w("%s  if(g_bytag) sbepp::set_by_tag<%s>(%s, val_); else %s.%s(val_); }" % (pad, mtag, owner, owner, m.name))
+            self.w("%s  if(g_bytag) sbepp::set_by_tag<%s>(%s, val_%s); else %s.%s(val_%s); }" % (pad, mtag, owner, CA, owner, m.name, CA))
         elif m.kind == "set":
             T = self.fresh("T")
             self.w("%s{ typedef decltype(%s.%s()) %s; std::string how = tk.next();" % (pad, owner, m.name, T))
-            self.w("%s  if(how == \"v\") { %s val_(rt::from_bits<%s>(tk.u64())); if(g_bytag) sbepp::set_by_tag<%s>(%s, val_); else %s.%s(val_); }" % (
-                pad, T, CPP_PRIM[m.prim], mtag, owner, owner, m.name))
+            self.w("%s  if(how == \"v\") { %s val_(rt::from_bits<%s>(tk.u64())); if(g_bytag) sbepp::set_by_tag<%s>(%s, val_%s); else %s.%s(val_%s); }" % (
+                pad, T, CPP_PRIM[m.prim], mtag, owner, CA, owner, m.name, CA))
             self.w("%s  else { %s s_{}; std::size_t k_ = tk.dec(); for(std::size_t j_ = 0; j_ < k_; j_++) { std::size_t ci_ = tk.dec(); bool b_ = tk.dec() != 0; (void)b_;" % (pad, T))
             self.w("%s      switch(ci_) {" % pad)
             stag = self.member_tag(m, otag)
             for i, ch in enumerate(m.target["choices"]):
                 self.w("%s      case %d: if(g_bytag) sbepp::set_by_tag<%s::%s>(s_, b_); else s_.%s(b_); break;" % (pad, i, stag, ch["name"], ch["name"]))
             self.w("%s      default: break; } }" % pad)
-            self.w("%s    if(g_bytag) sbepp::set_by_tag<%s>(%s, s_); else %s.%s(s_); } }" % (pad, mtag, owner, owner, m.name))
+            self.w("%s    if(g_bytag) sbepp::set_by_tag<%s>(%s, s_%s); else %s.%s(s_%s); } }" % (pad, mtag, owner, CA, owner, m.name, CA))
         elif m.kind == "composite":
             c = self.fresh("c")
-            self.w("%s{ auto %s = %s.%s();" % (pad, c, owner, m.name))
+            self.w("%s{ auto %s = %s.%s(%s);" % (pad, c, owner, m.name, CG))
             self.set_members_loop([e for e in m.elements if not e.is_const], c, ind + 1, self.member_tag(m, otag))
             self.w("%s}" % pad)
         elif m.kind == "array":
             a = self.fresh("a")
             E = CPP_PRIM[m.prim]
-            self.w("%s{ auto %s = %s.%s(); std::string op = tk.next(); std::vector<unsigned char> b_ = tk.bytes();" % (pad, a, owner, m.name))
+            self.w("%s{ auto %s = %s.%s(%s); std::string op = tk.next(); std::vector<unsigned char> b_ = tk.bytes();" % (pad, a, owner, m.name, CG))
             self.w("%s  std::vector<%s> v_(b_.begin(), b_.end()); (void)v_;" % (pad, E))
             self.w("%s  std::size_t ret_ = 0; (void)ret_;" % pad)
             self.w("%s  if(op == \"w\") { std::copy(v_.begin(), v_.end(), %s.begin()); ret_ = v_.size(); }" % (pad, a))
@@ -275,9 +277,19 @@ class Gen:
                 self.w("%s     if(op.size() > 2 && op[2] == 'p') ret_ = %s.assign_string(s_.c_str(), mode_) - %s.begin(); else ret_ = %s.assign_string(s_, mode_) - %s.begin(); }" % (pad, a, a, a, a))
             self.w("%s  o.kv(\"ret\", ret_); }" % pad)
 
-    def set_members_loop(self, members, owner, ind, otag):
-        """consume  ('f' <idx> payload)* 'e'  writing members of `owner`"""
+    def set_members_loop(self, members, owner, ind, otag, cur=False):
+        """consume  ('f' <idx> payload)* 'e'  writing members of `owner`; cursor flavour: every member exactly once and
+        in schema order, either written through its cursor setter ('f' <idx> payload) or passed over ('k' <idx>) with
+        cursor_ops::skip"""
         pad = "    " * ind
+        if cur:
+            for i, m in enumerate(members):
+                self.w("%s{ std::string a_ = tk.next(); std::size_t fi_ = tk.dec(); if(fi_ != %d) o.err(\"script: member order\");" % (pad, i))
+                self.w("%s  if(a_ == \"k\") { %s.%s(sbepp::cursor_ops::skip(c)); } else {" % (pad, owner, m.name))
+                self.set_member(m, owner, ind + 1, otag, cur=True)
+                self.w("%s  } }" % pad)
+            self.w("%sif(tk.next() != \"e\") o.err(\"script: expected e\");" % pad)
+            return
         self.w("%swhile(tk.more() && tk.peek() == \"f\") { tk.next(); std::size_t fi_ = tk.dec(); switch(fi_) {" % pad)
         for i, m in enumerate(members):
             self.w("%scase %d:" % (pad, i))
@@ -286,13 +298,15 @@ class Gen:
         self.w("%sdefault: o.err(\"bad field index\"); break; } }" % pad)
         self.w("%sif(tk.next() != \"e\") o.err(\"script: expected e\");" % pad)
 
-    def encode_level(self, L, v, ind):
+    def encode_level(self, L, v, ind, cur=False):
+        """cur: the documented cursor-based way of encoding (doc/examples.md): fields through cursor setters in schema
+        order, groups through `level.group(c)` + fill_group_header + cursor_range, data through dont_move + skip"""
         pad = "    " * ind
-        self.set_members_loop([m for m in L.fields if not m.is_const], v, ind, self.level_tag(L))
+        self.set_members_loop([m for m in L.fields if not m.is_const], v, ind, self.level_tag(L), cur=cur)
         for g in L.groups:
             gv, ev, hv = self.fresh("g"), self.fresh("e"), self.fresh("h")
             NT = self.fresh("N")
-            self.w("%s{ auto %s = %s.%s(); std::string mode = tk.next(); std::size_t n_ = tk.dec();" % (pad, gv, v, g.name))
+            self.w("%s{ auto %s = %s.%s(%s); std::string mode = tk.next(); std::size_t n_ = tk.dec();" % (pad, gv, v, g.name, "c" if cur else ""))
             self.w("%s  typedef decltype(sbepp::get_header(%s).numInGroup()) %s;" % (pad, gv, NT))
             self.w("%s  if(mode == \"F\") { auto %s = sbepp::fill_group_header(%s, %s(static_cast<typename %s::value_type>(n_)));" % (pad, hv, gv, NT, NT))
             self.w("%s      o.kv(\"hdr\", reinterpret_cast<unsigned char*>(sbepp::addressof(%s)) - base_); }" % (pad, hv))
@@ -304,13 +318,14 @@ class Gen:
             # documented call form: a plain integer (of the numInGroup value type) as the count
             self.w("%s  else if(mode == \"Z\") { auto %s = sbepp::fill_group_header(%s, static_cast<typename %s::value_type>(tk.u64()));" % (pad, hv, gv, NT))
             self.w("%s      o.kv(\"hdr\", reinterpret_cast<unsigned char*>(sbepp::addressof(%s)) - base_); return; }" % (pad, hv))
-            self.w("%s  for(auto %s : %s) {" % (pad, ev, gv))
-            self.encode_level(g, ev, ind + 1)
+            self.w("%s  for(auto %s : %s%s) {" % (pad, ev, gv, ".cursor_range(c)" if cur else ""))
+            self.encode_level(g, ev, ind + 1, cur=cur)
             self.w("%s  } }" % pad)
         for d in L.data:
             dv = self.fresh("d")
             E = CPP_PRIM[d.elem_prim]
-            self.w("%s{ auto %s = %s.%s(); std::string op = tk.next(); std::vector<unsigned char> b_ = tk.bytes();" % (pad, dv, v, d.name))
+            self.w("%s{ auto %s = %s.%s(%s); std::string op = tk.next(); std::vector<unsigned char> b_ = tk.bytes();" % (
+                pad, dv, v, d.name, "sbepp::cursor_ops::dont_move(c)" if cur else ""))
             self.w("%s  std::vector<%s> v_(b_.begin(), b_.end());" % (pad, E))
             self.w("%s  if(op == \"r\") %s.assign_range(v_);" % (pad, dv))
             self.w("%s  else if(op == \"l\") %s.assign(v_.begin(), v_.end());" % (pad, dv))
@@ -320,7 +335,10 @@ class Gen:
             self.w("%s  else if(op == \"p\") { %s.clear(); for(std::size_t j_ = 0; j_ < v_.size(); j_++) %s.push_back(v_[j_]); }" % (pad, dv, dv))
             self.w("%s  else if(op == \"i\") { %s.clear(); %s.insert(%s.end(), v_.begin(), v_.end()); }" % (pad, dv, dv, dv))
             self.w("%s  else if(op == \"s\") { std::string s_(b_.begin(), b_.end()); %s.assign_string(s_.c_str()); }" % (pad, dv))
-            self.w("%s  else o.err(\"bad data op\"); }" % pad)
+            self.w("%s  else o.err(\"bad data op\");" % pad)
+            if cur:
+                self.w("%s  %s.%s(sbepp::cursor_ops::skip(c));" % (pad, v, d.name))
+            self.w("%s}" % pad)
 
     # ------------------------------------------------------------- sizes
     def sizes_level(self, L, v, ind):
@@ -581,6 +599,19 @@ class Gen:
             w("      else if(hm != \"N\") o.err(\"bad header mode\"); }")
             self.encode_level(L, "v0", 1)
             w("}")
+            # ---- the same scripts executed the documented cursor-based way
+            w("static void cencode_%d(unsigned char* p, std::size_t n, rt::Tokens& tk, rt::Out& o) {" % i)
+            w("    unsigned char* base_ = p; (void)base_;")
+            w("    auto v0 = sbepp::make_view<%s>(p, n);" % view)
+            w("    { std::string hm = tk.next();")
+            w("      if(hm == \"F\") { auto h = sbepp::fill_message_header(v0); o.kv(\"hdr\", reinterpret_cast<unsigned char*>(sbepp::addressof(h)) - base_); }")
+            w("      else if(hm == \"H\") { auto h = sbepp::get_header(v0); typedef decltype(h.blockLength()) BT_; h.blockLength(BT_(static_cast<typename BT_::value_type>(tk.dec()))); }")
+            w("      else if(hm != \"N\") o.err(\"bad header mode\"); }")
+            w("    auto c = sbepp::init_cursor(v0);")
+            self.encode_level(L, "v0", 1, cur=True)
+            w("    o.kv(\"cur\", reinterpret_cast<unsigned char*>(c.pointer()) - base_);")
+            w("    o.kv(\"size_by_cursor\", sbepp::size_bytes(v0, c));")
+            w("}")
         # dispatcher
         w("static bool dispatch(const std::string& cmd, std::size_t mi, rt::Tokens& tk, rt::GuardBuf& gb, rt::Out& o) {")
         w("    if(cmd == \"dump\") { std::string mode = tk.next(); std::vector<unsigned char> img = tk.bytes(); unsigned char* p = gb.place(img.data(), img.size(), true);")
@@ -615,6 +646,13 @@ class Gen:
         w("        switch(mi) {")
         for i in range(len(m.messages)):
             w("        case %d: encode_%d(p, img.size(), tk, o); break;" % (i, i))
+        w("        default: return false; }")
+        w("        if(!gb.canary_ok(p)) o.err(\"write before the buffer\");")
+        w("        o.tok(\"BUF \" + rt::Out::hexbytes(p, img.size())); return true; }")
+        w("    if(cmd == \"cencode\" || cmd == \"cencodetag\") { g_bytag = (cmd == \"cencodetag\"); std::vector<unsigned char> img = tk.bytes(); unsigned char* p = gb.place(img.data(), img.size(), false);")
+        w("        switch(mi) {")
+        for i in range(len(m.messages)):
+            w("        case %d: cencode_%d(p, img.size(), tk, o); break;" % (i, i))
         w("        default: return false; }")
         w("        if(!gb.canary_ok(p)) o.err(\"write before the buffer\");")
         w("        o.tok(\"BUF \" + rt::Out::hexbytes(p, img.size())); return true; }")
